@@ -10,9 +10,11 @@ CONSTANTS InjAssignees, InjEst, InjProc, InjSenders, DynDepth, RowMode
 
 \* "canon": attributes of validators outside the snapshot are not varied beyond the chain account (the snapshot
 \* holds no entry for them, so the model state is the same); "full": every row with the primary address; "all": Row
-McRows == CASE RowMode = "canon" -> {r \in Row : r.acct <= 1 /\ (~r.home => (r.fee = BaseFee /\ r.perf /\ ~r.mev))}
-            [] RowMode = "full"  -> {r \in Row : r.acct <= 1}
-            [] OTHER             -> Row
+\* (a trait without the account that carries it is not a row of its own: CurOf drops it)
+Wf(r) == (r.mevH => r.home) /\ (r.mevT => r.acct # 0)
+McRows == CASE RowMode = "canon" -> {r \in Row : Wf(r) /\ r.acct <= 1 /\ (~r.home => (r.fee = BaseFee /\ r.perf /\ ~r.mevT))}
+            [] RowMode = "full"  -> {r \in Row : Wf(r) /\ r.acct <= 1}
+            [] OTHER             -> {r \in Row : Wf(r)}
 NextRows == \E v \in Vals, r \in McRows : SetRow(v, r)
 
 InjGas == CHOOSE g \in Gases : TRUE
@@ -26,23 +28,26 @@ Inject(kind, s, a, es, pr) ==
          m2 == [m1 EXCEPT !.pad = (pr = "pad"), !.err = (pr = "err")]
      IN  queue' = queue \cup {m2}
   /\ nextId' = nextId + 1 /\ res' = "put"
-  /\ UNCHANGED <<tabs, nrows>>
+  /\ UNCHANGED <<tabs, nrows, queueH>>
 NextInject ==
   \E k \in Kinds : \E s \in (IF k = "slc" THEN InjSenders ELSE {0}) :
     \E a \in InjAssignees, es \in InjEst, pr \in InjProc : Inject(k, s, a, es, pr)
 
 HiFee == MaxOf(FeeLevels)
-DynRows == {BaseRow, [BaseRow EXCEPT !.mev = TRUE, !.fee = HiFee], [BaseRow EXCEPT !.fee = 0, !.acct = 2]}
+\* base; both accounts with the trait on the HOME account only and a high fee; alternate address, trait on the target
+\* account, no target fee record
+DynRows == {BaseRow, [BaseRow EXCEPT !.mevH = TRUE, !.fee = HiFee], [BaseRow EXCEPT !.fee = 0, !.acct = 2, !.mevT = TRUE]}
 NextDyn ==
   \/ \E T \in [Vals -> DynRows] : Setup(T)
-  \/ Rereg(1, 2, TRUE)
+  \/ Rereg(1, 2, TRUE, FALSE)
   \/ Resnap
-  \/ \E mv \in BOOLEAN, t \in Times : Assign(1, mv, t)
+  \/ \E mv \in BOOLEAN, t \in Times : Assign("t", 1, mv, t)
+  \/ Assign("h", 1, TRUE, 0)
   \/ \E k \in {"slc", "valset"}, ne \in BOOLEAN : Put(k, IF k = "slc" THEN 1 ELSE 0, 1, ne)
-  \/ \E v \in Vals, id \in 1..(nextId - 1), g \in Gases : Estimate(v, id, g)
+  \/ \E v \in {1, 2}, id \in 1..(nextId - 1), g \in Gases : Estimate(v, id, g)
   \/ EndBlock
   \/ \E id \in 1..(nextId - 1) : Deliver(id) \/ Fail(id)
-ConstrDyn == Cardinality(queue) <= MaxQ /\ TLCGet("level") <= DynDepth
+ConstrDyn == Cardinality(queue) <= MaxQ /\ Cardinality(queueH) <= MaxQ /\ TLCGet("level") <= DynDepth
 ConstrQ == Cardinality(queue) <= MaxQ
 \* fees are checked against the fee table, which Setup may only change before the first message
 FeesAtElectionDyn == FeesAtElection
